@@ -177,12 +177,13 @@ def _prog(ctx, p, rng):
     """general programs: graph drivers vs forward-mode drivers"""
     rec = p['rec']
     if p['prog'] == 'comp':
-        desc, g = progs.random_program(rng, int(rng.integers(3, 10)), 'vector'); n = 3; dom = 'R'; name = 'comp'
+        desc, g = progs.random_program(rng, int(rng.integers(3, 10)), 'vector'); n = 3; dom = 'R'; name = 'comp'; shape = (3,)
     else:
         name = p['prog']
         (shape, dom, f) = [(s, d, f) for (nm, s, d, f) in vector_programs() if nm == name][0]
         g = wrap(f, shape); n = int(np.prod(shape)); pr = progs.by_name(name)
-    bs = gen.base_sampler(dom)
+    bs0 = gen.base_sampler(dom)
+    bs = lambda r, shp: bs0(r, tuple(shape)).reshape(n)
     xr = bs(rng, (n,))
     if rec == 'int':
         # a non-degenerate integer point of the domain (distinct entries), or fall back to a float recording
